@@ -83,6 +83,8 @@ def _tail_returns(stmts, out):
             _tail_returns(h.body, out)
     elif isinstance(last, ast.With):
         _tail_returns(last.body, out)
+    elif isinstance(last, (ast.For, ast.While)) and getattr(last, '_else_tail', False):
+        _tail_returns(last.orelse, out)
 
 
 def _conv_tail(stmts, mk):
@@ -109,7 +111,109 @@ def _conv_tail(stmts, mk):
     if isinstance(last, ast.With):
         last.body = _conv_tail(last.body, mk) or [ast.copy_location(ast.Pass(), last)]
         return stmts
+    if isinstance(last, (ast.For, ast.While)) and getattr(last, '_conv', False):
+        if getattr(last, '_else_tail', False):
+            last.orelse = _conv_tail(last.orelse, mk)
+        return stmts
     return stmts + mk(None)
+
+
+class _Unsupported(Exception):
+    pass
+
+
+_RET = '__loop_return__'
+
+
+def _own_loop_exits(stmts, kinds):
+    """break / continue / return statements of this statement list that belong to the enclosing loop (not to a nested
+    loop, for break / continue) - nested functions are not entered."""
+    out = []
+    for s in stmts:
+        if isinstance(s, kinds):
+            out.append(s)
+        if isinstance(s, (ast.FunctionDef, ast.AsyncFunctionDef, ast.ClassDef)):
+            continue
+        if isinstance(s, (ast.For, ast.While)):
+            out.extend(x for x in _own_loop_exits(s.body + s.orelse, kinds) if isinstance(x, ast.Return))
+            continue
+        for f in ('body', 'orelse', 'finalbody'):
+            sub = getattr(s, f, None)
+            if isinstance(sub, list) and sub and isinstance(sub[0], ast.stmt):
+                out.extend(_own_loop_exits(sub, kinds))
+        for h in getattr(s, 'handlers', []) or []:
+            out.extend(_own_loop_exits(h.body, kinds))
+    return out
+
+
+def _const_true(e):
+    return isinstance(e, ast.Constant) and bool(e.value)
+
+
+def _loop_returns(loop):
+    """`return X` inside a loop  ->  `__loop_return__ = X; break`.  A nested loop that returns must be a statement of the
+    loop body itself: the statements after it become its else-clause (ending in `continue`) and a `break` follows it."""
+    if loop.orelse or [x for x in _own_loop_exits(loop.body, (ast.Break,)) if isinstance(x, ast.Break)]:
+        raise _Unsupported()
+
+    def ret(r):
+        val = r.value if r.value is not None else ast.Constant(value=None)
+        a = ast.copy_location(ast.Assign(targets=[ast.Name(id=_RET, ctx=ast.Store())], value=val), r)
+        return [a, ast.copy_location(ast.Break(), r)]
+
+    def block(stmts, top):
+        out = []
+        for j, s in enumerate(stmts):
+            if isinstance(s, ast.Return):
+                return out + ret(s)
+            if isinstance(s, (ast.For, ast.While)):
+                if any(isinstance(x, ast.Return) for x in _own_loop_exits([s], (ast.Return,))):
+                    if not top:
+                        raise _Unsupported()
+                    _loop_returns(s)
+                    rest = block(stmts[j + 1:], top)
+                    if not (isinstance(s, ast.While) and _const_true(s.test)):
+                        s.orelse = rest + [ast.copy_location(ast.Continue(), s)]
+                    return out + [s, ast.copy_location(ast.Break(), s)]
+                out.append(s)
+                continue
+            if isinstance(s, ast.If):
+                s.body = block(s.body, False) or [ast.copy_location(ast.Pass(), s)]
+                s.orelse = block(s.orelse, False)
+            elif isinstance(s, ast.Try):
+                if any(isinstance(x, ast.Return) for x in _own_loop_exits(s.finalbody, (ast.Return,))):
+                    raise _Unsupported()
+                s.body = block(s.body, False) or [ast.copy_location(ast.Pass(), s)]
+                s.orelse = block(s.orelse, False)
+                for h in s.handlers:
+                    h.body = block(h.body, False) or [ast.copy_location(ast.Pass(), h)]
+            elif isinstance(s, ast.With):
+                s.body = block(s.body, False) or [ast.copy_location(ast.Pass(), s)]
+            out.append(s)
+        return out
+    loop.body = block(loop.body, True)
+    loop._conv = True
+
+
+def _loopify(body):
+    """Helper body whose returns sit inside one statement-level loop: single-exit form with a for/while-else."""
+    for i, s in enumerate(body):
+        if isinstance(s, (ast.For, ast.While)) and any(isinstance(x, ast.Return) for x in _own_loop_exits([s], (ast.Return,))):
+            _loop_returns(s)
+            post = body[i + 1:]
+            if isinstance(s, ast.While) and _const_true(s.test):
+                return body[:i + 1]           # left only by the converted returns
+            if any(isinstance(x, (ast.For, ast.While)) and any(
+                    isinstance(y, ast.Return) for y in _own_loop_exits([x], (ast.Return,))) for x in post):
+                raise _Unsupported()
+            s.orelse = post if post else []
+            s._else_tail = True
+            return body[:i + 1]
+        if any(isinstance(x, ast.Return) for x in _own_loop_exits([s], (ast.Return,))) and any(
+                isinstance(x, (ast.For, ast.While)) and any(isinstance(y, ast.Return) for y in _own_loop_exits([x], (ast.Return,)))
+                for x in _walk_own([s])):
+            raise _Unsupported()              # a returning loop below an if / try: not handled
+    return body
 
 
 def _nest_else(stmts):
@@ -477,6 +581,29 @@ class Inliner(object):
             return None
         return None
 
+    def _collector(self, e, ctx):
+        """(collector call, generator helper call) when e is, or starts by evaluating, SEP.join(G(..)) / list(G(..)) /
+        tuple(G(..)) with G a generator helper and nothing with effects evaluated before it."""
+        def is_col(c):
+            if not (isinstance(c, ast.Call) and len(c.args) == 1 and not c.keywords and isinstance(c.args[0], ast.Call)):
+                return False
+            f = c.func
+            if isinstance(f, ast.Attribute) and f.attr == 'join' and isinstance(f.value, ast.Constant):
+                pass
+            elif isinstance(f, ast.Name) and f.id in ('list', 'tuple'):
+                pass
+            else:
+                return False
+            h = self._match(c.args[0], ctx)
+            return h is not None and h.is_gen and all(_simple(a) for a in c.args[0].args) \
+                and all(_simple(k.value) for k in c.args[0].keywords)
+        if is_col(e):
+            return e, e.args[0]
+        if isinstance(e, ast.Call) and not e.keywords and e.args and is_col(e.args[0]) and _simple(e.func) \
+                and all(_simple(a) for a in e.args[1:]):
+            return e.args[0], e.args[0].args[0]
+        return None
+
     def _stmt(self, s, ctx):
         """Try to inline one helper call of statement s: the replacement statement list (ending in s itself when s
         was kept with the call hoisted), or None."""
@@ -498,6 +625,29 @@ class Inliner(object):
             h = self._match(s.value, ctx)
             if h is not None:
                 return self._expand(h, s.value, 'assign', s.targets[0], ctx, s)
+        # a generator helper drained at once by join() / list() / tuple(): collect its values in a list with a loop
+        if isinstance(s, (ast.Expr, ast.Return, ast.Assign)) and s.value is not None:
+            col = self._collector(s.value, ctx)
+            if col is not None:
+                outer, gcall = col
+                self.counter += 1
+                acc = '_inl%d_items' % self.counter
+                item = '_inl%d_item' % self.counter
+                init = ast.Assign(targets=[ast.Name(id=acc, ctx=ast.Store())], value=ast.List(elts=[], ctx=ast.Load()))
+                app = ast.Expr(value=ast.Call(func=ast.Attribute(value=ast.Name(id=acc, ctx=ast.Load()), attr='append',
+                                                                 ctx=ast.Load()),
+                                              args=[ast.Name(id=item, ctx=ast.Load())], keywords=[]))
+                loop = ast.For(target=ast.Name(id=item, ctx=ast.Store()), iter=gcall, body=[app], orelse=[])
+                for n_ in (init, loop):
+                    ast.copy_location(n_, s)
+                    for x in ast.walk(n_):
+                        if not hasattr(x, 'lineno'):
+                            ast.copy_location(x, s)
+                    ast.fix_missing_locations(n_)
+                outer.args[0] = ast.copy_location(ast.Name(id=acc, ctx=ast.Load()), gcall)
+                self.log.append('%s: generator drained by %s() collected with a loop' % (
+                    ctx['qual'], outer.func.attr if isinstance(outer.func, ast.Attribute) else outer.func.id))
+                return [init, loop, s]
         # hoist the first-evaluated helper call
         if isinstance(s, (ast.Expr, ast.Return)):
             roots = [s.value]
@@ -550,6 +700,12 @@ class Inliner(object):
             if any(isinstance(n, (ast.Try, ast.With)) and any(isinstance(y, ast.Yield) for y in _walk_own([n]))
                    for n in _walk_own(body)):
                 return None
+        if mode in ('assign', 'expr'):
+            try:
+                body = _loopify(body)
+            except _Unsupported:
+                return None
+            allret = [n for n in _walk_own(body) if isinstance(n, ast.Return)]
         if mode != 'ret':
             body = _nest_else(body)
             tails = set()
@@ -666,6 +822,13 @@ class Inliner(object):
         kwname = a.kwarg.arg if a.kwarg is not None else None
         rn = _Rename(names, subst, kwname, extra)
         body = [rn.visit(s) for s in body]
+        # plain assignments to the helper's own locals may be forwarded into an immediate single use
+        pnames = set(names.get(p, p) for p in params + kwonly)
+        for s_ in body:
+            for n_ in _walk_own([s_]):
+                if isinstance(n_, ast.Assign) and len(n_.targets) == 1 and isinstance(n_.targets[0], ast.Name) \
+                        and n_.targets[0].id not in pnames and n_.targets[0].id not in caller_names:
+                    n_._norm = True
         # ---- returns
         if mode == 'ret':
             if _falls_through(body):
@@ -724,6 +887,22 @@ class Inliner(object):
                 asg._norm = True
                 return [asg]
             body = _conv_tail(body, mk)
+        if mode in ('assign', 'expr'):
+            def _ph(stmts, f_):
+                if any(isinstance(x, ast.Assign) and isinstance(x.targets[0], ast.Name) and x.targets[0].id == _RET
+                       for x in stmts):
+                    o_ = []
+                    for x in stmts:
+                        if isinstance(x, ast.Assign) and isinstance(x.targets[0], ast.Name) and x.targets[0].id == _RET:
+                            o_.extend(mk(x.value, x))
+                        else:
+                            o_.append(x)
+                    return o_
+                return None
+            holder = ast.Module(body=body, type_ignores=[])
+            from .normalise import _Blocks
+            _Blocks(_ph).run(holder)
+            body = holder.body
         out = pre + body
         if not out:
             out = [ast.copy_location(ast.Pass(), at)]
